@@ -151,12 +151,15 @@ static int run_heap(int argc, char** argv) {
 // ================================================================================================ pools (C18)
 struct Region { void* p; size_t n; int rid; bool live; };
 struct PoolCtx { int pid; std::vector<Region> regs; long calls = 0; long fail_from = -1, fail_to = -1; char* fixed_buf = nullptr; size_t fixed_size = 0; };
+static long g_refused_in_call = 0;       // raw-allocation refusals since the current API call started: an entry point that keeps re-asking a refusing callback never reports the failure
 static PoolCtx PC[4]; static int g_next_rid;
 static void* raw_alloc(intptr_t pool_id, size_t& bytes) {
     PoolCtx& c = PC[pool_id]; long k = ++c.calls;
     if (c.fixed_buf) { if (k > 1) { ev("RA", {{"p", c.pid}, {"rid", ++g_next_rid}, {"ok", 0}}, {{"lo", 0}, {"hi", 0}}); return nullptr; }
         bytes = c.fixed_size; int rid = ++g_next_rid; c.regs.push_back({c.fixed_buf, bytes, rid, true}); ev("RA", {{"p", c.pid}, {"rid", rid}, {"ok", 1}}, {{"lo", (u64)(uintptr_t)c.fixed_buf}, {"hi", (u64)(uintptr_t)c.fixed_buf + bytes}}); return c.fixed_buf; }
-    if (k >= c.fail_from && k <= c.fail_to) { ev("RA", {{"p", c.pid}, {"rid", ++g_next_rid}, {"ok", 0}}, {{"lo", 0}, {"hi", 0}}); return nullptr; }
+    if (k >= c.fail_from && k <= c.fail_to) {
+        if (++g_refused_in_call > 20000) { ev("Fail", {{"rep", 0}, {"pt", 1}}); flush_events(); TR.close(); _exit(0); }      // livelock: the failure is never reported (rep = 0)
+        if (g_refused_in_call < 50) ev("RA", {{"p", c.pid}, {"rid", ++g_next_rid}, {"ok", 0}}, {{"lo", 0}, {"hi", 0}}); return nullptr; }
     void* p = ::mmap(nullptr, bytes, PROT_READ | PROT_WRITE, MAP_PRIVATE | MAP_ANONYMOUS, -1, 0); if (p == MAP_FAILED) return nullptr;
     int rid = ++g_next_rid; c.regs.push_back({p, bytes, rid, true});
     ev("RA", {{"p", c.pid}, {"rid", rid}, {"ok", 1}}, {{"lo", (u64)(uintptr_t)p}, {"hi", (u64)(uintptr_t)p + bytes}}); return p;
@@ -170,18 +173,19 @@ static int raw_free(intptr_t pool_id, void* ptr, size_t bytes) {
 }
 struct PBlk { void* p = nullptr; size_t size = 0; int id = 0; int pool = 0; };
 static void pool_sequence(unsigned long seed, const std::string& mode) {
-    std::mt19937_64 rng(seed); rml::MemoryPool* pool[2] = {nullptr, nullptr}; PBlk tab[12]; int next_id = 0; g_next_rid = 0; bool failing = mode == "fail";
+    std::mt19937_64 rng(seed); rml::MemoryPool* pool[2] = {nullptr, nullptr}; PBlk tab[12]; int next_id = 0; g_next_rid = 0; bool persistent = mode == "failp"; bool failing = mode == "fail" || persistent;
     for (int i = 0; i < 2; i++) { PC[i] = PoolCtx(); PC[i].pid = i; bool fx = mode == "fixed" && i == 0;
         if (fx) { PC[i].fixed_size = 4 * 1024 * 1024; PC[i].fixed_buf = (char*)::mmap(nullptr, PC[i].fixed_size, PROT_READ | PROT_WRITE, MAP_PRIVATE | MAP_ANONYMOUS, -1, 0); }
-        if (failing) { long from = 1 + (long)(rng() % 6); PC[i].fail_from = from; PC[i].fail_to = from + (long)(rng() % 4); }      // a run of failing raw allocations (the back-end retries single ones)
+        if (failing) { long from = 1 + (long)(rng() % 6); PC[i].fail_from = from + (persistent ? 2 : 0); PC[i].fail_to = persistent ? (1L << 60) : from + (long)(rng() % 4); }      // failp: the callback refuses for good from that call on      // a run of failing raw allocations (the back-end retries single ones)
         rml::MemPoolPolicy pol(raw_alloc, raw_free, 0, fx, /*keepAllMemory*/ (rng() & 1) != 0);
         ev("PC", {{"p", i}, {"fx", fx}});
         if (rml::pool_create_v1(i, &pol, &pool[i]) != rml::POOL_OK) { pool[i] = nullptr; ev("Fail", {{"rep", 1}, {"pt", 1}}); ev("PD", {{"p", i}}); } }
     bool failed_once = false;
     for (int k = 0; k < 36; k++) {
+        g_refused_in_call = 0;
         int slot = (int)(rng() % 12), pi = (int)(rng() % 2); PBlk& b = tab[slot]; int op = (int)(rng() % 100);
         if (!b.p) { if (!pool[pi]) continue;
-            size_t size = SIZES[1 + rng() % (sizeof SIZES / sizeof *SIZES - 4)]; if (PC[pi].fixed_buf && size > 300000) size = 3000;
+            size_t size = SIZES[1 + rng() % (sizeof SIZES / sizeof *SIZES - 4)]; if (PC[pi].fixed_buf && size > 300000) size = 3000; if (persistent && (rng() % 3) == 0) size = 3000000 + rng() % 60000000;
             void* p = (op & 1) ? rml::pool_malloc(pool[pi], size) : rml::pool_aligned_malloc(pool[pi], size, ALIGNS[rng() % 8]);
             bool intact = true; for (auto& x : tab) if (x.p && !check(x.p, x.size, x.id)) intact = false;
             if (!p) { ev("Fail", {{"rep", 1}, {"pt", intact}}); failed_once = true; continue; }
@@ -224,12 +228,16 @@ static void oom_sequence(unsigned long seed) {
     // unrepresentable requests must be refused, never wrap around
     const size_t M = ~(size_t)0;
     struct X { int how; size_t a, b; } xs[] = {{0, M, 0}, {0, M - 7, 0}, {0, M - 4096, 0}, {0, M / 2 + 1, 0}, {1, M / 2, 3}, {1, (size_t)1 << 33, (size_t)1 << 33}, {1, M, M}, {2, M - 100, 4096}, {2, 1000, (size_t)1 << 63},
-                                  {2, M - (1 << 20), 1 << 20}, {3, M - 64, 64}, {3, 100, 3}, {3, 100, 0}, {4, M - 5, 0}, {4, M / 2 + 4096, 0}, {5, M - 12, 16384}};
+                                  {2, M - (1 << 20), 1 << 20}, {3, M - 64, 64}, {3, 100, 3}, {3, 100, 0}, {4, M - 5, 0}, {4, M / 2 + 4096, 0}, {5, M - 12, 16384}, {6, M - 64, 0}, {6, M - 4096, 0}, {6, M - (1 << 20), 0}, {7, M - 64, 4096}};
     for (auto& x : xs) { void* p = nullptr; int rep = 1; errno = 0;
         if (x.how == 0) p = scalable_malloc(x.a); else if (x.how == 1) p = scalable_calloc(x.a, x.b); else if (x.how == 2) p = scalable_aligned_malloc(x.a, x.b);
         else if (x.how == 3) { int r = scalable_posix_memalign(&p, x.b, x.a); rep = r != 0 && p == nullptr; }
         else if (x.how == 4) { void* q = scalable_malloc(100); memset(q, 7, 100); p = scalable_realloc(q, x.a); rep = p == nullptr && check_range((unsigned char*)q, 100, 7); scalable_free(q); }
-        else { void* q = scalable_aligned_malloc(100, 64); p = scalable_aligned_realloc(q, x.a, x.b); rep = p == nullptr; scalable_aligned_free(q); }
+        else if (x.how == 5) { void* q = scalable_aligned_malloc(100, 64); p = scalable_aligned_realloc(q, x.a, x.b); rep = p == nullptr; scalable_aligned_free(q); }
+        else {      // realloc of a LARGE object (16 MB, the mremap path) to a size that cannot be represented: must fail and leave the block alone
+            size_t big = 16u << 20; unsigned char* q = (unsigned char*)(x.how == 6 ? scalable_malloc(big) : scalable_aligned_malloc(big, 4096)); memset(q, 9, 4096); memset(q + big - 4096, 9, 4096);
+            p = x.how == 6 ? scalable_realloc(q, x.a) : scalable_aligned_realloc(q, x.a, x.b);
+            rep = p == nullptr && scalable_msize(q) >= big && check_range(q, 4096, 9) && check_range(q + big - 4096, 4096, 9); if (p) { ev("Fail", {{"rep", 0}, {"pt", 1}}); flush_events(); TR.close(); _exit(0); } scalable_free(q); }
         if (x.how <= 2) rep = p == nullptr;
         ev("Fail", {{"rep", rep}, {"pt", intact()}}); if (p && x.how <= 2) scalable_free(p); }
     for (auto& b : live) scalable_free(b.p);
